@@ -550,6 +550,17 @@ pub fn run_case_full(
                     -1,
                     format!("panicked at {}: {}", loc, msg),
                 );
+            } else if msg.starts_with("HARNESS: iterator budget exceeded") {
+                // the instrumented iterator was advanced tens of thousands of times: a source that
+                // runs ahead of its sink without bound (counted, never timed)
+                b.world.violate(
+                    &["C15", "C14", "C06"],
+                    "iterator-advanced-without-bound",
+                    "from_iter",
+                    0,
+                    -1,
+                    msg.clone(),
+                );
             } else {
                 b.world.harness_fault(format!("harness panic at {}: {}", loc, msg));
             }
